@@ -80,6 +80,13 @@ class Verifier:
     @catch
     def run_checks(self, category: str, fcp: FcpV2) -> Result[Nil, FcpError]:
         """Run check for a category."""
+        if category == "uncategorized":
+            # checks registered without a category see the whole schema, once
+            for check in self.checks.get(category) or []:
+                check(fcp, fcp, fcp).attempt()
+
+            return Ok(())
+
         for check in self.checks.get(category) or []:
             for node in fcp.get(category).attempt():
                 check(fcp, fcp, node).attempt()
